@@ -39,6 +39,10 @@ func init() {
 // c14SweepHook is set by c14instr.go (instrumented build only).
 var c14SweepHook func(e *emitter, seed uint64)
 
+// c14AttemptHook, when set (instrumented build), replays the parties of a realised cycle with the
+// rendezvous armed; cycle is the class cycle "A>B>A".
+var c14AttemptHook func(parties []string, cycle string) (outcome, detail string)
+
 // c14CmdHook, when set (instrumented build), is told the label of every command a client sends.
 var c14CmdHook func(label string)
 
@@ -682,7 +686,12 @@ func replayC14(e *emitter, kind string, f []string) {
 			panic("c14 replay: short realise line")
 		}
 		parties := strings.Split(string(unhx(f[1])), "\n")
-		outcome, detail := c14ReplayParties(parties)
+		var outcome, detail string
+		if c14AttemptHook != nil {
+			outcome, detail = c14AttemptHook(parties, f[0])
+		} else {
+			outcome, detail = c14ReplayParties(parties)
+		}
 		e.emit("realise", f[0], f[1], outcome, detail)
 	default:
 		// graph/edge/sweep lines describe the instrumented sweep; they are re-validated as they are
@@ -708,7 +717,7 @@ func c14Enter(c *c14Client, state string, wd time.Duration) {
 func c14ReplayParties(parties []string) (string, string) {
 	wd := c14Watchdog / 2
 	deadline := time.Now().Add(25 * time.Second)
-	for round := 0; time.Now().Before(deadline) && round < 400; round++ {
+	for round := 0; time.Now().Before(deadline) && round < 20000; round++ {
 		w := newC14World(3, 3)
 		var wg sync.WaitGroup
 		var mu sync.Mutex
@@ -725,7 +734,7 @@ func c14ReplayParties(parties []string) (string, string) {
 			go func(i int, c *c14Client, cmd string) {
 				defer wg.Done()
 				<-start
-				for k := 0; k < 50; k++ {
+				for k := 0; k < 1+round%3; k++ {
 					if st := c.do(cmd, wd); st == "TIMEOUT" {
 						mu.Lock()
 						stuck = append(stuck, fmt.Sprintf("party %d: %q never completed", i, cmd))
